@@ -296,6 +296,60 @@ def scalars(rng, n):
     return out
 
 
+
+def zero_byte_checksum_keys(ctx):
+    """Directed cases for the 1-in-256 class of bugs where a checksum / hash with a zero first or last byte is
+    converted through an integer or stripped: public keys k*G (k = 1, 2, ...; generated by repeated addition)
+    are searched, per format, for those whose reference checksum has a zero byte at either end."""
+    E, W = ecref.ED25519, S
+    eds, secps = [], []
+    Pt, Qt = E.G, W.G
+    for _ in range(ctx.n(900, 4000)):
+        eds.append(E.ser(Pt))
+        Pt = E.add(Pt, E.G)
+    for _ in range(ctx.n(700, 3000)):
+        secps.append((W.ser_c(Qt), W.ser_u(Qt)))
+        Qt = W.add(Qt, W.G)
+
+    def ends0(b):
+        return len(b) > 0 and (b[0] == 0 or b[-1] == 0)
+    import binascii
+    per = ctx.n(2, 6)
+    fams = [
+        ("xlm_encode", lambda e: [48, e], lambda e: binascii.crc_hqx(bytes([48]) + e, 0).to_bytes(2, "little"), eds),
+        ("xlm_encode", lambda e: [144, e], lambda e: binascii.crc_hqx(bytes([144]) + e, 0).to_bytes(2, "little"), eds),
+        ("algo_encode", lambda e: [e], lambda e: oracles.sha512_256(e)[-4:], eds),
+        ("nano_encode", lambda e: [e], lambda e: hashlib.blake2b(e, digest_size=5).digest(), eds),
+        ("nim_encode", lambda e: [e], lambda e: hashlib.blake2b(e, digest_size=32).digest()[:20], eds),
+        ("sol_encode", lambda e: [e], lambda e: e, eds),
+        ("substrate_encode", lambda e: [42, e], lambda e: hashlib.blake2b(b"SS58PRE" + bytes([42]) + e, digest_size=64).digest()[:2], eds),
+        ("fil_encode", lambda cu: [cu[0], cu[1]],
+         lambda cu: hashlib.blake2b(b"\x01" + hashlib.blake2b(cu[1], digest_size=20).digest(), digest_size=4).digest(), secps),
+        ("fil_encode", lambda cu: [cu[0], cu[1]], lambda cu: hashlib.blake2b(cu[1], digest_size=20).digest(), secps),
+    ]
+    found_total = 0
+    for fn, mkargs, ref, pool in fams:
+        if fn not in FUNCS:
+            continue
+        got = {"first": 0, "last": 0}
+        for key in pool:
+            ck = ref(key)
+            if not ends0(ck):
+                continue
+            side = "first" if ck[0] == 0 else "last"
+            if got[side] >= per:
+                continue
+            got[side] += 1
+            found_total += 1
+            _, r = ctx.run(fn, mkargs(key), "zero-%s-byte" % side)
+            dec = fn.replace("_encode", "_decode")
+            if r and r[0] == "ok" and dec in FUNCS:
+                a = mkargs(key)
+                ctx.run(dec, a[:-1] + [r[1]] if fn in ("xlm_encode", "substrate_encode") else [r[1]], "zero-%s-byte" % side)
+            if got["first"] >= per and got["last"] >= per:
+                break
+    ctx.dist["zero_byte_checksum_cases"] = found_total
+
 def mutate(s, rng):
     alph = "123456789ABCDEFGHJKLMNPQRSTUVWXYZabcdefghijkmnopqrstuvwxyz0OIl xXéK"
     out = []
@@ -444,6 +498,7 @@ def generate(ctx):
             if r and r[0] == "ok":
                 for t in [r[1], "0x" + r[1][2:].lstrip("0"), "0x"] + mutate(r[1], rng)[:2]:
                     ctx.run("aptos_decode", [t], "dec")
+    zero_byte_checksum_keys(ctx)
     # taproot: keys whose OUTPUT key x has a leading zero byte (the fixed-width bug class), by search
     found, k = 0, 1
     while found < ctx.n(2, 8) and k < 4000:
